@@ -332,7 +332,7 @@ def breakdown(js):
     return out
 
 
-MISSING_METHOD = re.compile(r"no method named `(\w+)` found for (?:struct|enum|reference|mutable reference|type) `&?(?:mut )?(?:[\w:]*::)?(\w+)")
+MISSING_METHOD = re.compile(r"no (?:method|function or associated item|variant or associated item) named `(\w+)` found for (?:struct|enum|reference|mutable reference|type) `&?(?:mut )?(?:[\w:]*::)?(\w+)")
 MISSING_FN = re.compile(r"cannot find (?:function `(\w+)`|value `([a-z_]\w*)`) in this scope")
 MISSING_VALUE = re.compile(r"cannot find value `([A-Z][A-Z0-9_]*)` in this scope")
 
